@@ -8,7 +8,9 @@ RULE = ("model sets = corpus/exp + systematic import coverage (27 import feature
         "nullable, FK, index, composite index, composite unique, server default = the lower-case helper `text`: one table per feature, one "
         "per PAIR of features so that every two importable names co-occur, and two all-at-once tables) + FK-shaped generator (several FKs to one table, self references, chains through key columns, "
         "junction tables, one-to-one, odd identifiers) + vcommon loader-profile generator, all loader-accepted and normalised as "
-        "`vespertide export` does; every table of every set is rendered for the 3 ORMs: 4x (SeaORM) / 12x (Python ORMs; every distinct import block "
+        "`vespertide export` does; every model set also draws a SeaORM export configuration (extraModelDerives / extraEnumDerives with 0, 1 or 3-5 "
+        "entries incl. duplicates of configured and built-in derives, enumNamingCase, vesperaSchemaType, table prefix) under which each table is "
+        "rendered 6x in one process and once per fresh process; every table of every set is rendered for the 3 ORMs: 4x (SeaORM) / 12x (Python ORMs; every distinct import block "
         "goes to K-exp, order of names included) in one process, under reversed / rotated / "
         "shuffled schema slices, and once in each of 8 fresh processes; non-trivial = distinct (by hash of the models) set with >= 2 tables and >= 1 foreign key")
 
@@ -34,7 +36,7 @@ def verdict(chk, run, tier, seed):
         broken.append(("theorem:HashSites", {"undischarged_hash_iteration_sites": sites["undischarged_hash"], "seaorm_sites": sites["seaorm_hash_sites"],
                                              "note": "a HashMap/HashSet iteration that is not in coq/exp/Model/SiteTables.v:hash_allow"}))
     # ---- correspondence (SeaORM declarations, both import blocks)
-    rel = {i: [c for c in codes if c % 10 in (1, 2, 3, 9)] for i, codes in exp["mismatches"].items()}
+    rel = {i: [c for c in codes if c % 10 in (1, 2, 3, 6, 9)] for i, codes in exp["mismatches"].items()}
     rel = {i: c for i, c in rel.items() if c}
     if rel or exp["errors"]:
         first = sorted(rel.items(), key=lambda kv: int(kv[0]))[:1]
@@ -42,7 +44,7 @@ def verdict(chk, run, tier, seed):
         if first:
             i, codes = int(first[0][0]), first[0][1]
             payload["first_differing_case"] = exprun.input_of(run, i, codes[0] // 10)
-            payload["subchecks"] = sorted({{1: "K-exp(seaorm declarations)", 2: "K-exp(sqlalchemy imports)", 3: "K-exp(sqlmodel imports)", 9: "shape"}[c % 10] for c in codes})
+            payload["subchecks"] = sorted({{1: "K-exp(seaorm declarations)", 2: "K-exp(sqlalchemy imports)", 3: "K-exp(sqlmodel imports)", 6: "K-exp(seaorm configuration lines: derives, serde, table_name, vespera)", 9: "shape"}[c % 10] for c in codes})
         broken.append(("correspondence:K-exp", payload))
     # ---- oracle O-C18
     failing = []   # (case, table, orm, kind, detail)
@@ -50,7 +52,8 @@ def verdict(chk, run, tier, seed):
         for j, t in enumerate(o["tables"]):
             for orm, r in t["c18"].items():
                 if not r["rep"]:
-                    failing.append((o["idx"], j, orm, "repeated-render-differs", None))
+                    failing.append((o["idx"], j, orm, "repeated-render-differs",
+                                    {"distinct_configuration_lines_seen": r.get("variants")} if r.get("variants") else None))
                 if not r["perm"]:
                     failing.append((o["idx"], j, orm, "slice-permutation-differs", r.get("perm_diff")))
     if "error" in procs:
@@ -129,7 +132,7 @@ def replay(path):
     if not inp:
         print("replay file has no input (%s)" % rp.get("kind")); print(json.dumps(rp, indent=1)[:3000])
         return 1
-    r = exprun.replay_run(PROP, models=inp["models"])
+    r = exprun.replay_run(PROP, models=inp["models"], config=inp.get("config"))
     if r is None:
         return 1
     procs = exprun.fresh_renders(r)
